@@ -494,3 +494,57 @@ func byteAtoms(v ssa.Value) ([]atom, bool) {
 	}
 	return nil, false
 }
+
+// pathDecides: v is a comparison over values that cannot change along the path (no loads: parameters, constants, loop
+// indices, lengths of parameters) and the path has already taken an edge asserting the same comparison → its value.
+func (w *World) pathDecides(path []ssa.Instruction, v ssa.Value) (bool, bool) {
+	bo, ok := v.(*ssa.BinOp)
+	if !ok {
+		return false, false
+	}
+	var pure func(x ssa.Value, d int) bool
+	pure = func(x ssa.Value, d int) bool {
+		if d > 6 {
+			return false
+		}
+		switch y := x.(type) {
+		case *ssa.Const, *ssa.Parameter:
+			return true
+		case *ssa.Phi:
+			return true
+		case *ssa.BinOp:
+			return pure(y.X, d+1) && pure(y.Y, d+1)
+		case *ssa.Convert:
+			return pure(y.X, d+1)
+		case *ssa.Call:
+			if b, isB := y.Call.Value.(*ssa.Builtin); isB && b.Name() == "len" {
+				return pure(y.Call.Args[0], d+1)
+			}
+		}
+		return false
+	}
+	if !pure(bo.X, 0) || !pure(bo.Y, 0) {
+		return false, false
+	}
+	saved := nfPath
+	nfPath = path
+	defer func() { nfPath = saved }()
+	wantT, wantF := w.condNF(v, true), w.condNF(v, false)
+	res, known := false, false
+	pathEdges(path, func(b *ssa.BasicBlock, succ int) {
+		c, truth, ok := edgeAssertion(b, succ)
+		if !ok {
+			return
+		}
+		if cb, isB := c.(*ssa.BinOp); !isB || !pure(cb.X, 0) || !pure(cb.Y, 0) {
+			return
+		}
+		switch w.condNF(c, truth) {
+		case wantT:
+			res, known = true, true
+		case wantF:
+			res, known = false, true
+		}
+	})
+	return res, known
+}
